@@ -604,7 +604,7 @@ func replayFile(path string, hs []harness, pkgNames map[string]string) (bool, st
 
 func writeEvidence(prop, tier string, seed int, results []jobResult, eng *symgo.Engine, wall time.Duration, violations int, inconcl []string, extra map[string]interface{}) {
 	cov := map[string]interface{}{}
-	var paths, decisions, obligations, discharged, trivial, infeasible, unknownBr, crossDis int
+	var paths, decisions, obligations, discharged, trivial, infeasible, unknownBr, crossDis, bmcStates, bmcTrans int
 	covered := map[string]bool{}
 	stubbed := map[string]bool{}
 	var samples []interface{}
@@ -621,6 +621,8 @@ func writeEvidence(prop, tier string, seed int, results []jobResult, eng *symgo.
 		infeasible += r.ex.PathsInfeas
 		unknownBr += r.ex.UnknownBranch
 		crossDis += r.ex.CrossDisagree
+		bmcStates += r.ex.BMCStates
+		bmcTrans += r.ex.BMCTransitions
 		for k := range r.ex.Covered {
 			covered[k] = true
 		}
@@ -665,9 +667,11 @@ func writeEvidence(prop, tier string, seed int, results []jobResult, eng *symgo.
 		queries["unknown_answers"] = eng.Stats.Unknown
 		queries["error_answers"] = eng.Stats.Errors
 	}
-	cov["states"] = paths + decisions
-	cov["transitions"] = paths + decisions
-	if paths+decisions == 0 {
+	cov["states"] = paths + decisions + bmcStates
+	cov["transitions"] = paths + decisions + bmcTrans
+	cov["bmc_thread_dag_nodes"] = bmcStates
+	cov["bmc_thread_dag_edges"] = bmcTrans
+	if paths+decisions+bmcStates == 0 {
 		cov["states"], cov["transitions"] = 1, 1
 	}
 	cov["traces_validated_against_impl"] = extra["replays_run"]
@@ -690,6 +694,9 @@ func writeEvidence(prop, tier string, seed int, results []jobResult, eng *symgo.
 	cov["functions_stubbed_or_modelled"] = keys(stubbed)
 	cov["solver_queries"] = queries
 	cov["harnesses"] = perHarness
+	if inconcl == nil {
+		inconcl = []string{}
+	}
 	cov["inconclusive"] = inconcl
 	cov["exhaustive"] = len(inconcl) == 0
 	for k, v := range extra {
